@@ -710,7 +710,10 @@ class SuitTag(SuitObject):
         cbor = cls.deserialize_cbor(cbstr)
         if not hasattr(cbor, "tag") or cls._metadata.tag.value != cbor.tag:
             raise SUITError(f"CBOR tag not found in: {cbor}")
-        return cls(cbor2.CBORTag(cbor.tag, cls._metadata.children[0].from_cbor(cls.serialize_cbor(cbor.value))))
+        try:
+            return cls(cbor2.CBORTag(cbor.tag, cls._metadata.children[0].from_cbor(cls.serialize_cbor(cbor.value))))
+        except RecursionError:
+            raise ValueError("Structure is nested too deeply")
 
     def to_cbor(self) -> bytes:
         """Dump SUIT representation to cbor encoded bytes."""
